@@ -488,6 +488,73 @@ def _kernel_setup(kind: str):
     return _K[kind]
 
 
+# IWLS on a double-well target: the information matrix 3x^2 - 2 is positive at the current point but negative (no proposal density:
+# Cholesky gives NaN) on |x| < sqrt(2/3), where the target itself is finite.  Proposals landing there have an undefined ratio.
+DW_EDGE = math.sqrt(2.0 / 3.0)
+
+
+def _dw_setup():
+    if "dw" in _K:
+        return _K["dw"]
+
+    def log_prob(s):
+        x = s["x"]
+        return -0.25 * x ** 4 + x ** 2 - 0.5 * jnp.sum(s["b"] ** 2)
+
+    model = gs.DictInterface(log_prob)
+    ker = gs.IWLSKernel(["x"], initial_step_size=1.0)
+    ker.set_model(model)
+    from liesel.goose.epoch import EpochConfig, EpochType
+
+    epoch = EpochConfig(EpochType.BURNIN, 10, 1, None).to_state(1, 1)
+
+    def one(key, x, step):
+        state = {"x": x, "b": jnp.array([0.5, -0.5], dtype=jnp.float32)}
+        ks = ker.init_state(key, state)
+        ks.step_size = step
+        out = ker.transition(key, ks, state, epoch)
+        return out.info.error_code, out.info.acceptance_prob, out.model_state["x"]
+
+    _K["dw"] = jax.jit(jax.vmap(one, in_axes=(0, None, None)))
+    return _K["dw"]
+
+
+def gen_dw():
+    from hypothesis import strategies as st
+    from vlib.gens import f32
+
+    return st.fixed_dictionaries({"x": f32(0.9, 1.8), "neg": st.booleans(), "step": st.sampled_from([0.3, 0.6, 1.0, 2.5]), "case_seed": st.integers(0, 2**30)})
+
+
+def oracle_dw(case):
+    from scipy import stats as sps
+    from vlib import stats
+
+    f = _dw_setup()
+    x = float(np.float32(case["x"])) * (-1.0 if case["neg"] else 1.0)
+    s = float(case["step"])
+    F = 3 * x * x - 2
+    mu, sd = x + 0.5 * s * s * (-x ** 3 + 2 * x) / F, s / math.sqrt(F)
+    p_bad = float(sps.norm.cdf((DW_EDGE - mu) / sd) - sps.norm.cdf((-DW_EDGE - mu) / sd))     # P(proposal has no backward proposal density)
+    seen = {}
+
+    def stat(n, subseed):
+        keys = jax.random.split(jax.random.PRNGKey((case["case_seed"] + 7919 * subseed) % 2**31), n)
+        code, acc, xo = (np.asarray(a) for a in f(keys, jnp.float32(x), jnp.float32(s)))
+        bad = code == 90
+        require(bool(np.all(acc[bad] == 0) and np.all(xo[bad] == np.float32(x))), "kernel:nan-ratio-not-rejected", lambda: f"{case}")
+        require(bool(np.all(np.abs(xo[xo != np.float32(x)]) >= DW_EDGE * (1 - 1e-5))), "kernel:accepted-proposal-with-undefined-ratio",
+                lambda: f"accepted x' in the region without backward proposal density: {xo[(xo != np.float32(x)) & (np.abs(xo) < DW_EDGE)][:3].tolist()}; {case}")
+        seen["k"], seen["n"] = int(bad.sum()), n
+        return {"undefined-ratio-reported-with-code-90": stats.z_binom(int(bad.sum()), n, p_bad)}
+
+    sig, rep = stats.decide(stat, 2048, 1)
+    if sig:
+        raise Violation("kernel:" + sig + ":frequency-differs-from-probability-of-an-undefined-ratio",
+                        f"code 90 reported {seen.get('k')} times in {seen.get('n')} transitions, P(undefined ratio) = {p_bad:.4f}; {rep}; {case}")
+    return {"nt": bool(0.01 < p_bad < 0.99), "cls": ["p_bad>1%" if p_bad > 0.01 else "p_bad<=1%"], "extra": {"max_abs_z": rep["max_abs_z"]}}
+
+
 def gen_kernels():
     from hypothesis import strategies as st
     from vlib.gens import f32
@@ -531,6 +598,8 @@ SUBS = [
         what="acceptance frequency over 8192 real keys ~ Binomial(n, reported a)"),
     Sub("liesel_state", oracle_liesel, gen=gen_liesel, n={"quick": 400, "thorough": 20000},
         what="Liesel graph model: returned state is exactly input / update_state(proposal)"),
+    Sub("iwls_undefined", oracle_dw, gen=gen_dw, n={"quick": 24, "thorough": 600}, shrink={"quick": False, "thorough": False}, min_per_shard=3,
+        what="IWLS on a double-well target: proposals without a backward proposal density (information not positive definite) are reported with code 90 as often as they occur"),
     Sub("kernels", oracle_kernels, gen=gen_kernels, n={"quick": 24, "thorough": 600}, shrink={"quick": False, "thorough": True},
         what="RW / MH / IWLS transitions on a support-constrained target (512 keys per case)"),
 ]
